@@ -440,6 +440,67 @@ func dbExec(ops []string) (dops []string, res []string) {
 			if r.db.State() != originium.StateClosed {
 				r.syncMarks()
 			}
+		case "upd":
+			// upd <ok|err|panic> <key> <value>: DB.Update with a closure that sets one key and then returns nil, returns an
+			// error, or panics; in the model: begin, set, then commit (ok) or discard (err, panic: the deferred Discard)
+			mode := t[1]
+			idx := len(txns)
+			txns = append(txns, nil)
+			finished = append(finished, true)
+			r.mu.Lock()
+			r.cur = idx
+			r.commitLogged = false
+			r.mu.Unlock()
+			var uerr error
+			func() {
+				defer func() { _ = recover() }()
+				r.call(func() {
+					uerr = r.db.Update(func(tx *originium.Txn) error {
+						txns[idx] = tx
+						r.mu.Lock()
+						r.log("begin 1", strconv.FormatUint(tx.VerifReadTs(), 10))
+						r.mu.Unlock()
+						val := unhx(t[3])
+						if val == nil {
+							val = []byte{}
+						}
+						e := tx.Set(string(unhx(t[2])), val)
+						r.mu.Lock()
+						r.log(fmt.Sprintf("set %d %s %s", idx, t[2], t[3]), errName(e))
+						r.mu.Unlock()
+						switch mode {
+						case "err":
+							return fmt.Errorf("closure failed")
+						case "panic":
+							panic("closure panicked")
+						}
+						return nil
+					})
+				})
+			}()
+			r.mu.Lock()
+			committed := r.commitLogged
+			if mode == "ok" {
+				if !committed {
+					r.log(fmt.Sprintf("commit %d", idx), errName(uerr))
+				}
+			} else {
+				if !committed {
+					r.log(fmt.Sprintf("discard %d", idx), "ok")
+					r.log("expectok failed Update leaves no trace", "ok")
+				} else {
+					r.log("expectok failed Update leaves no trace", "SPEC-VIOLATION: DB.Update whose closure "+map[string]string{"err": "returned an error", "panic": "panicked"}[mode]+" committed its writes")
+				}
+			}
+			r.mu.Unlock()
+			if txns[idx] == nil {
+				// Update refused before calling the closure (closed DB): nothing happened in the model either
+				txns = txns[:idx]
+				finished = finished[:idx]
+			}
+			if r.db.State() != originium.StateClosed {
+				r.syncMarks()
+			}
 		case "discard":
 			i, _ := strconv.Atoi(t[1])
 			r.mu.Lock()
@@ -603,6 +664,14 @@ func dbGen(r *rand.Rand, n int, length int, withReopen bool) []Case {
 					}
 					tags["finished-txn-misuse"] = true
 				}
+			case x < 83:
+				// DB.Update with a closure that succeeds, fails or panics
+				mode := []string{"ok", "err", "panic"}[r.Intn(3)]
+				t := &tx{idx: nextIdx, update: true, open: false}
+				nextIdx++
+				txs = append(txs, t)
+				ops = append(ops, fmt.Sprintf("upd %s %s %s", mode, hxs(pickKey(r, nk)), hx(pickValue(r, i))))
+				tags["update-closure-"+mode] = true
 			case x < 90:
 				ops = append(ops, "bg")
 			case x < 93:
